@@ -26,6 +26,8 @@ type Case struct {
 	Text  string         `json:"text"`
 	// WithTemporal configures an (empty) temporal store as well; the limit must still hold for plain facts.
 	WithTemporal bool `json:"withTemporal,omitempty"`
+	// OptOrder permutes the evaluation options (their order must not matter).
+	OptOrder int `json:"optOrder,omitempty"`
 }
 
 type verdict struct {
@@ -136,7 +138,7 @@ func check(run *stats.Run, f stats.Failer, c Case) verdict {
 		if c.WithTemporal {
 			opts = append(opts, engine.WithTemporalStore(countingTemporal{TemporalFactStore: factstore.NewTemporalStore(), created: &created, bound: B}))
 		}
-		evalErr = engine.EvalProgram(out.Info, store, opts...)
+		evalErr = engine.EvalProgram(out.Info, store, permuteOpts(opts, c.OptOrder)...)
 	}()
 	if panicked != "" {
 		run.Failf(f, "evaluation under a fact limit panicked: %s\nlimit %d\n%s", panicked, L, text)
@@ -323,6 +325,7 @@ func genCase(t *rapid.T) Case {
 	}
 	c.Store = rapid.SampledFrom(prog.StoreKinds).Draw(t, "store")
 	c.WithTemporal = rapid.IntRange(0, 2).Draw(t, "withTemporal") == 0
+	c.OptOrder = rapid.IntRange(0, 1).Draw(t, "optOrder")
 	c.Limit = rapid.SampledFrom([]int{1, 1, 2, 3, 5, 8, 13, 21}).Draw(t, "limit")
 	c.Text = c.Gen.Prog.Source()
 	return c
@@ -348,6 +351,13 @@ func TestReplay(t *testing.T) {
 		var tc TCase
 		if stats.LoadReplay(t, &tc) {
 			checkTemporal(run, t, tc)
+		}
+		return
+	}
+	if stats.ReplayTest() == "TestC17_Merge" {
+		var mc MCase
+		if stats.LoadReplay(t, &mc) {
+			checkMerge(run, t, mc)
 		}
 		return
 	}
